@@ -90,6 +90,7 @@ func genCaseC02(t *rapid.T) *c02Case {
 	d, vars := GenDoc(t, base.Schema, p, rapid.IntRange(0, 3).Draw(t, "multi") == 0)
 	base.Doc, base.Vars = d, vars
 	base.Op = d.Ops[0].Name
+	base.LateRegister = rapid.IntRange(0, 4).Draw(t, "lateRegister") == 0
 	cc := &c02Case{Base: base}
 	cc.Configs = append(cc.Configs,
 		uniform(base, "R", false, "uniform-Resolver", false),
